@@ -367,6 +367,12 @@ func parGame(root Root, moves []string, reqs []Limits, tt int, noCounters bool, 
 	if startGate != nil {
 		<-startGate
 	}
+	if tt >= 32<<20 {
+		// a big table is filled a little and cleared right before the game, the
+		// way ucinewgame does
+		eng.Go(b, search.WithOutput(nil), search.WithNodes(3000))
+		eng.Clear()
+	}
 	for i, lim := range reqs {
 		rec := &parRecorder{}
 		cnt := &search.Counters{}
@@ -453,6 +459,9 @@ func TestParallelLeg(t *testing.T) {
 			g.Push(m)
 		}
 		tt := pick(rng, []int{32768, 1 << 20})
+		if rng.IntN(6) == 0 {
+			tt = pick(rng, []int{32 << 20, 64 << 20})
+		}
 		noCounters := rng.IntN(2) == 0
 		want, err := parGame(root, moves, reqs, tt, noCounters, nil)
 		if err != nil {
